@@ -590,7 +590,8 @@ def parent_main(prop, tier):
         return 2
     req = getattr(mod, "REQUIRED_CLASSES", {}).get(tier, [])
     missing = [c for c in req if classes.get(c, 0) == 0]
-    if missing and not os.environ.get("VERIF_PARTS") and skipped == 0:
+    if missing and not violations and not os.environ.get("VERIF_PARTS") and skipped == 0 \
+            and float(os.environ.get("VERIF_SCALE", "1")) >= 1:
         print(f"HARNESS-ERROR property={prop} generator never produced "
               f"required classes {missing}")
         return 2
